@@ -187,7 +187,9 @@ fn build(decls: &[(String, String)], idx: &[usize], rng: &mut Rng) -> String {
     let groups = rng.range(1, 3);
     for (k, &i) in idx.iter().enumerate() {
         let g = if k < groups { k } else { rng.below(groups) };
-        s.push_str(&format!("@group({g}) @binding({}) {}\n", k * 3 + rng.below(3), decls[i].0.replace("{}", &format!("r{k}"))));
+        // mostly small, sometimes large binding indices (wgpu allows up to 1000 per group; the index must survive unharmed)
+        let slot = if rng.below(6) == 0 { 256 + k * 97 + rng.below(40) } else { k * 3 + rng.below(3) };
+        s.push_str(&format!("@group({g}) @binding({}) {}\n", slot, decls[i].0.replace("{}", &format!("r{k}"))));
     }
     s.push_str("@compute @workgroup_size(1)\nfn main() {}\n");
     s
